@@ -127,6 +127,10 @@ func TestVerifC02Hostile(t *testing.T) {
 			lines = append(lines, c02Text(c))
 			defs = append(defs, c02Def(c))
 		}
+		// a plain last command: when the text is accepted nothing of it may have been dropped silently
+		const sentinel = "route add sentinel sentinel.test/ http://sentinel:80/"
+		lines = append(lines, sentinel)
+		defs = append(defs, RouteDef{Cmd: RouteAddCmd, Service: "sentinel", Src: "sentinel.test/", Dst: "http://sentinel:80/"})
 		text := strings.Join(lines, "\n")
 		for _, path := range []string{"text", "defs"} {
 			var tbl Table
@@ -141,6 +145,15 @@ func TestVerifC02Hostile(t *testing.T) {
 					c02Use(tbl)
 				}
 			})
+			if p == nil && err == nil && tbl.route("sentinel.test", "/") == nil {
+				short := text
+				if len(short) > 300 {
+					short = short[:300] + "..."
+				}
+				verifx.Fail(sc, map[string]any{"sub": "hostile", "path": path, "clause": "accepted-but-truncated"},
+					"configuration text accepted without error but its last command is missing from the table (%s path):\n%s", path, short)
+				continue
+			}
 			if p != nil {
 				short := text
 				if len(short) > 300 {
